@@ -1,5 +1,5 @@
 /-
-  NutsProofs.Pins.TxApi — the transactional API
+  NutsProofs.Pins.TxApi — the transactional API: tx.go (`put`, `checkTxIsClosed`) and the key/value writes of tx_bptree.go
   (One module per pinned piece of source, so that a change to that piece breaks the obligations of the
   properties that rest on it and no others.)
 -/
@@ -7,205 +7,22 @@ import NutsGen.Facts
 namespace NutsProofs.Facts
 open NutsGen.F
 
-/-- the lines of the transactional API (tx_list.go, tx_set.go, tx_zset.go, the key/value writes, `tx.put`) that
-`Nuts.Model.Tx` (`txPut`, `txRPush`, `txPop`, `txLRem`, `txLSet`, `txLTrim`, `txSAdd`, `txSPop`, `txZAdd`, `txZPop`,
-…) was written from: what each call validates against the committed state and which record it queues -/
-def expectedTxApiStmts : List (String × String × String) := [
+/-- the statements of the named files among `txApiStmts` -/
+def txApiOfCore : List (String × String × String) :=
+  txApiStmts.filter (fun s => (s.1.toList.takeWhile (· != ':') == "tx.go".toList) || (s.1.toList.takeWhile (· != ':') == "tx_bptree.go".toList))
+
+/-- the lines of tx.go (`put`, `checkTxIsClosed`) and the key/value writes of tx_bptree.go that `Nuts.Model.Tx` was written from: what each call validates against the committed
+state and which record it queues -/
+def expectedTxApiCore : List (String × String × String) := [
   ("tx.go:checkTxIsClosed", "if", "tx.db == nil"),
   ("tx.go:put", "call", "tx.checkTxIsClosed()"),
   ("tx.go:put", "if", "!tx.writable"),
   ("tx.go:put", "if", "len(key) == 0"),
   ("tx.go:put", "call", "append(tx.pendingWrites, &Entry{ Key: key, Value: value, Meta: &MetaData{ keySize: uint32(len(key)), valueSize: uint32(len(value)), timestamp: timestamp, Flag: flag, TTL: ttl, bucket: []byte(bucket), bucketSize: uint32(len(bucket)), status: UnCommitted, ds: ds, txID: tx.id, }, })"),
   ("tx_bptree.go:Delete", "call", "tx.checkTxIsClosed()"),
-  ("tx_bptree.go:Delete", "return", "tx.put(bucket, key, nil, Persistent, DataDeleteFlag, uint64(time.Now().Unix()), DataStructureBPTree)"),
-  ("tx_list.go:RPop", "call", "tx.RPeek(bucket, key)"),
-  ("tx_list.go:RPop", "return", "tx.push(bucket, key, DataRPopFlag, item)"),
-  ("tx_list.go:RPeek", "call", "tx.checkTxIsClosed()"),
-  ("tx_list.go:RPeek", "if", "!ok"),
-  ("tx_list.go:RPeek", "call", "tx.db.ListIdx[bucket].RPeek(string(key))"),
-  ("tx_list.go:push", "range", "values"),
-  ("tx_list.go:push", "call", "tx.put(bucket, key, value, Persistent, flag, uint64(time.Now().Unix()), DataStructureList)"),
-  ("tx_list.go:RPush", "call", "tx.checkTxIsClosed()"),
-  ("tx_list.go:RPush", "if", "strings.Contains(string(key), SeparatorForListKey)"),
-  ("tx_list.go:RPush", "return", "ErrSeparatorForListKey()"),
-  ("tx_list.go:RPush", "return", "tx.push(bucket, key, DataRPushFlag, values...)"),
-  ("tx_list.go:LPush", "call", "tx.checkTxIsClosed()"),
-  ("tx_list.go:LPush", "if", "strings.Contains(string(key), SeparatorForListKey)"),
-  ("tx_list.go:LPush", "return", "ErrSeparatorForListKey()"),
-  ("tx_list.go:LPush", "return", "tx.push(bucket, key, DataLPushFlag, values...)"),
-  ("tx_list.go:LPop", "call", "tx.LPeek(bucket, key)"),
-  ("tx_list.go:LPop", "return", "tx.push(bucket, key, DataLPopFlag, item)"),
-  ("tx_list.go:LPeek", "call", "tx.checkTxIsClosed()"),
-  ("tx_list.go:LPeek", "if", "!ok"),
-  ("tx_list.go:LPeek", "call", "tx.db.ListIdx[bucket].LPeek(string(key))"),
-  ("tx_list.go:LSize", "call", "tx.checkTxIsClosed()"),
-  ("tx_list.go:LSize", "if", "!ok"),
-  ("tx_list.go:LSize", "return", "tx.db.ListIdx[bucket].Size(string(key))"),
-  ("tx_list.go:LRange", "call", "tx.checkTxIsClosed()"),
-  ("tx_list.go:LRange", "if", "!ok"),
-  ("tx_list.go:LRange", "return", "tx.db.ListIdx[bucket].LRange(string(key), start, end)"),
-  ("tx_list.go:LRem", "call", "tx.LSize(bucket, key)"),
-  ("tx_list.go:LRem", "if", "count > size || count < -size"),
-  ("tx_list.go:LRem", "call", "buffer.Write([]byte(strconv2.IntToStr(count)))"),
-  ("tx_list.go:LRem", "call", "buffer.Write([]byte(SeparatorForListKey))"),
-  ("tx_list.go:LRem", "call", "buffer.Write(value)"),
-  ("tx_list.go:LRem", "call", "buffer.Bytes()"),
-  ("tx_list.go:LRem", "call", "tx.push(bucket, key, DataLRemFlag, newValue)"),
-  ("tx_list.go:LRem", "call", "tx.db.ListIdx[bucket].LRemNum(string(key), count, value)"),
-  ("tx_list.go:LSet", "call", "tx.checkTxIsClosed()"),
-  ("tx_list.go:LSet", "if", "!ok"),
-  ("tx_list.go:LSet", "if", "!ok"),
-  ("tx_list.go:LSet", "call", "tx.LSize(bucket, key)"),
-  ("tx_list.go:LSet", "if", "index < 0 || index >= size"),
-  ("tx_list.go:LSet", "call", "buffer.Write(key)"),
-  ("tx_list.go:LSet", "call", "buffer.Write([]byte(SeparatorForListKey))"),
-  ("tx_list.go:LSet", "call", "[]byte(strconv2.IntToStr(index))"),
-  ("tx_list.go:LSet", "call", "buffer.Write(indexBytes)"),
-  ("tx_list.go:LSet", "call", "buffer.Bytes()"),
-  ("tx_list.go:LSet", "return", "tx.push(bucket, newKey, DataLSetFlag, value)"),
-  ("tx_list.go:LTrim", "call", "tx.checkTxIsClosed()"),
-  ("tx_list.go:LTrim", "if", "!ok"),
-  ("tx_list.go:LTrim", "if", "!ok"),
-  ("tx_list.go:LTrim", "call", "tx.LRange(bucket, key, start, end)"),
-  ("tx_list.go:LTrim", "call", "buffer.Write(key)"),
-  ("tx_list.go:LTrim", "call", "buffer.Write([]byte(SeparatorForListKey))"),
-  ("tx_list.go:LTrim", "call", "buffer.Write([]byte(strconv2.IntToStr(start)))"),
-  ("tx_list.go:LTrim", "call", "buffer.Bytes()"),
-  ("tx_list.go:LTrim", "return", "tx.push(bucket, newKey, DataLTrimFlag, []byte(strconv2.IntToStr(end)))"),
-  ("tx_list.go:ErrSeparatorForListKey", "return", "errors.New(\"contain separator (\" + SeparatorForListKey + \") for List key\")"),
-  ("tx_set.go:sPut", "range", "items"),
-  ("tx_set.go:sPut", "call", "tx.put(bucket, key, item, Persistent, dataFlag, uint64(time.Now().Unix()), DataStructureSet)"),
-  ("tx_set.go:SAdd", "return", "tx.sPut(bucket, key, DataSetFlag, items...)"),
-  ("tx_set.go:SRem", "return", "tx.sPut(bucket, key, DataDeleteFlag, items...)"),
-  ("tx_set.go:SAreMembers", "call", "tx.checkTxIsClosed()"),
-  ("tx_set.go:SAreMembers", "if", "ok"),
-  ("tx_set.go:SAreMembers", "return", "sets.SAreMembers(string(key), items...)"),
-  ("tx_set.go:SAreMembers", "return", "ErrBucketAndKey(bucket, key)"),
-  ("tx_set.go:SIsMember", "call", "tx.checkTxIsClosed()"),
-  ("tx_set.go:SIsMember", "if", "ok"),
-  ("tx_set.go:SIsMember", "if", "!set.SIsMember(string(key), item)"),
-  ("tx_set.go:SIsMember", "return", "ErrBucketAndKey(bucket, key)"),
-  ("tx_set.go:SIsMember", "return", "ErrBucketAndKey(bucket, key)"),
-  ("tx_set.go:SMembers", "call", "tx.checkTxIsClosed()"),
-  ("tx_set.go:SMembers", "if", "ok"),
-  ("tx_set.go:SMembers", "return", "set.SMembers(string(key))"),
-  ("tx_set.go:SMembers", "return", "ErrBucketAndKey(bucket, key)"),
-  ("tx_set.go:SHasKey", "call", "tx.checkTxIsClosed()"),
-  ("tx_set.go:SHasKey", "if", "ok"),
-  ("tx_set.go:SHasKey", "return", "set.SHasKey(string(key))"),
-  ("tx_set.go:SHasKey", "return", "ErrBucketAndKey(bucket, key)"),
-  ("tx_set.go:SPop", "call", "tx.checkTxIsClosed()"),
-  ("tx_set.go:SPop", "if", "ok"),
-  ("tx_set.go:SPop", "range", "tx.db.SetIdx[bucket].M[string(key)]"),
-  ("tx_set.go:SPop", "return", "[]byte(item)"),
-  ("tx_set.go:SPop", "return", "tx.sPut(bucket, key, DataDeleteFlag, []byte(item))"),
-  ("tx_set.go:SPop", "return", "ErrBucketAndKey(bucket, key)"),
-  ("tx_set.go:SCard", "call", "tx.checkTxIsClosed()"),
-  ("tx_set.go:SCard", "if", "ok"),
-  ("tx_set.go:SCard", "return", "set.SCard(string(key))"),
-  ("tx_set.go:SCard", "return", "ErrBucketAndKey(bucket, key)"),
-  ("tx_set.go:SDiffByOneBucket", "call", "tx.checkTxIsClosed()"),
-  ("tx_set.go:SDiffByOneBucket", "if", "ok"),
-  ("tx_set.go:SDiffByOneBucket", "return", "set.SDiff(string(key1), string(key2))"),
-  ("tx_set.go:SDiffByOneBucket", "return", "ErrBucketAndKey(bucket, key1)"),
-  ("tx_set.go:SDiffByTwoBuckets", "call", "tx.checkTxIsClosed()"),
-  ("tx_set.go:SDiffByTwoBuckets", "if", "!ok"),
-  ("tx_set.go:SDiffByTwoBuckets", "return", "ErrBucketAndKey(bucket1, key1)"),
-  ("tx_set.go:SDiffByTwoBuckets", "if", "!ok"),
-  ("tx_set.go:SDiffByTwoBuckets", "return", "ErrBucketAndKey(bucket2, key2)"),
-  ("tx_set.go:SDiffByTwoBuckets", "range", "set1.M[string(key1)]"),
-  ("tx_set.go:SDiffByTwoBuckets", "if", "!ok"),
-  ("tx_set.go:SDiffByTwoBuckets", "call", "append(list, []byte(item1))"),
-  ("tx_set.go:SMoveByOneBucket", "call", "tx.checkTxIsClosed()"),
-  ("tx_set.go:SMoveByOneBucket", "if", "ok"),
-  ("tx_set.go:SMoveByOneBucket", "return", "set.SMove(string(key1), string(key2), item)"),
-  ("tx_set.go:SMoveByTwoBuckets", "call", "tx.checkTxIsClosed()"),
-  ("tx_set.go:SMoveByTwoBuckets", "if", "!ok"),
-  ("tx_set.go:SMoveByTwoBuckets", "return", "ErrBucketAndKey(bucket1, key1)"),
-  ("tx_set.go:SMoveByTwoBuckets", "if", "!ok"),
-  ("tx_set.go:SMoveByTwoBuckets", "return", "ErrBucketAndKey(bucket2, key1)"),
-  ("tx_set.go:SMoveByTwoBuckets", "if", "!set1.SHasKey(string(key1))"),
-  ("tx_set.go:SMoveByTwoBuckets", "return", "ErrNotFoundKeyInBucket(bucket1, key1)"),
-  ("tx_set.go:SMoveByTwoBuckets", "if", "!set2.SHasKey(string(key2))"),
-  ("tx_set.go:SMoveByTwoBuckets", "return", "ErrNotFoundKeyInBucket(bucket2, key2)"),
-  ("tx_set.go:SMoveByTwoBuckets", "if", "!ok"),
-  ("tx_set.go:SMoveByTwoBuckets", "call", "set2.SAdd(string(key2), item)"),
-  ("tx_set.go:SMoveByTwoBuckets", "call", "set1.SRem(string(key1), item)"),
-  ("tx_set.go:SUnionByOneBucket", "call", "tx.checkTxIsClosed()"),
-  ("tx_set.go:SUnionByOneBucket", "if", "ok"),
-  ("tx_set.go:SUnionByOneBucket", "return", "set.SUnion(string(key1), string(key2))"),
-  ("tx_set.go:SUnionByTwoBuckets", "call", "tx.checkTxIsClosed()"),
-  ("tx_set.go:SUnionByTwoBuckets", "if", "!ok"),
-  ("tx_set.go:SUnionByTwoBuckets", "return", "ErrBucketAndKey(bucket1, key1)"),
-  ("tx_set.go:SUnionByTwoBuckets", "if", "!ok"),
-  ("tx_set.go:SUnionByTwoBuckets", "return", "ErrBucketAndKey(bucket2, key1)"),
-  ("tx_set.go:SUnionByTwoBuckets", "if", "!set1.SHasKey(string(key1))"),
-  ("tx_set.go:SUnionByTwoBuckets", "return", "ErrNotFoundKeyInBucket(bucket1, key1)"),
-  ("tx_set.go:SUnionByTwoBuckets", "if", "!set2.SHasKey(string(key2))"),
-  ("tx_set.go:SUnionByTwoBuckets", "return", "ErrNotFoundKeyInBucket(bucket2, key2)"),
-  ("tx_set.go:SUnionByTwoBuckets", "range", "set1.M[string(key1)]"),
-  ("tx_set.go:SUnionByTwoBuckets", "call", "append(list, []byte(item1))"),
-  ("tx_set.go:SUnionByTwoBuckets", "range", "set2.M[string(key2)]"),
-  ("tx_set.go:SUnionByTwoBuckets", "if", "!ok"),
-  ("tx_set.go:SUnionByTwoBuckets", "call", "append(list, []byte(item2))"),
-  ("tx_set.go:ErrBucketAndKey", "return", "errors.New(\"not found bucket:\" + bucket + \",key:\" + string(key))"),
-  ("tx_set.go:ErrNotFoundKeyInBucket", "return", "errors.New(string(key) + \" is not in the\" + bucket)"),
-  ("tx_zset.go:ZAdd", "if", "strings.Contains(string(key), SeparatorForZSetKey)"),
-  ("tx_zset.go:ZAdd", "return", "ErrSeparatorForZSetKey()"),
-  ("tx_zset.go:ZAdd", "call", "buffer.Write(key)"),
-  ("tx_zset.go:ZAdd", "call", "buffer.Write([]byte(SeparatorForZSetKey))"),
-  ("tx_zset.go:ZAdd", "call", "[]byte(strconv.FormatFloat(score, 'f', -1, 64))"),
-  ("tx_zset.go:ZAdd", "call", "buffer.Write(scoreBytes)"),
-  ("tx_zset.go:ZAdd", "call", "buffer.Bytes()"),
-  ("tx_zset.go:ZAdd", "return", "tx.put(bucket, newKey, val, Persistent, DataZAddFlag, uint64(time.Now().Unix()), DataStructureSortedSet)"),
-  ("tx_zset.go:ZMembers", "call", "tx.checkTxIsClosed()"),
-  ("tx_zset.go:ZMembers", "if", "!ok"),
-  ("tx_zset.go:ZCard", "call", "tx.ZMembers(bucket)"),
-  ("tx_zset.go:ZCard", "return", "len(members)"),
-  ("tx_zset.go:ZCount", "call", "tx.ZRangeByScore(bucket, start, end, opts)"),
-  ("tx_zset.go:ZCount", "return", "len(nodes)"),
-  ("tx_zset.go:ZPopMax", "call", "tx.ZPeekMax(bucket)"),
-  ("tx_zset.go:ZPopMax", "return", "tx.put(bucket, []byte(\" \"), []byte(\"\"), Persistent, DataZPopMaxFlag, uint64(time.Now().Unix()), DataStructureSortedSet)"),
-  ("tx_zset.go:ZPopMin", "call", "tx.ZPeekMin(bucket)"),
-  ("tx_zset.go:ZPopMin", "return", "tx.put(bucket, []byte(\" \"), []byte(\"\"), Persistent, DataZPopMinFlag, uint64(time.Now().Unix()), DataStructureSortedSet)"),
-  ("tx_zset.go:ZPeekMax", "call", "tx.checkTxIsClosed()"),
-  ("tx_zset.go:ZPeekMax", "if", "!ok"),
-  ("tx_zset.go:ZPeekMax", "return", "tx.db.SortedSetIdx[bucket].PeekMax()"),
-  ("tx_zset.go:ZPeekMin", "call", "tx.checkTxIsClosed()"),
-  ("tx_zset.go:ZPeekMin", "if", "!ok"),
-  ("tx_zset.go:ZPeekMin", "return", "tx.db.SortedSetIdx[bucket].PeekMin()"),
-  ("tx_zset.go:ZRangeByScore", "call", "tx.checkTxIsClosed()"),
-  ("tx_zset.go:ZRangeByScore", "if", "!ok"),
-  ("tx_zset.go:ZRangeByScore", "return", "tx.db.SortedSetIdx[bucket].GetByScoreRange(zset.SCORE(start), zset.SCORE(end), opts)"),
-  ("tx_zset.go:ZRangeByRank", "call", "tx.checkTxIsClosed()"),
-  ("tx_zset.go:ZRangeByRank", "if", "!ok"),
-  ("tx_zset.go:ZRangeByRank", "return", "tx.db.SortedSetIdx[bucket].GetByRankRange(start, end, false)"),
-  ("tx_zset.go:ZRem", "call", "tx.checkTxIsClosed()"),
-  ("tx_zset.go:ZRem", "if", "!ok"),
-  ("tx_zset.go:ZRem", "return", "tx.put(bucket, []byte(key), []byte(\"\"), Persistent, DataZRemFlag, uint64(time.Now().Unix()), DataStructureSortedSet)"),
-  ("tx_zset.go:ZRemRangeByRank", "call", "tx.checkTxIsClosed()"),
-  ("tx_zset.go:ZRemRangeByRank", "if", "!ok"),
-  ("tx_zset.go:ZRemRangeByRank", "call", "strconv2.IntToStr(start)"),
-  ("tx_zset.go:ZRemRangeByRank", "call", "strconv2.IntToStr(end)"),
-  ("tx_zset.go:ZRemRangeByRank", "return", "tx.put(bucket, []byte(newKey), []byte(newVal), Persistent, DataZRemRangeByRankFlag, uint64(time.Now().Unix()), DataStructureSortedSet)"),
-  ("tx_zset.go:ZRank", "call", "tx.checkTxIsClosed()"),
-  ("tx_zset.go:ZRank", "if", "!ok"),
-  ("tx_zset.go:ZRank", "return", "tx.db.SortedSetIdx[bucket].FindRank(string(key))"),
-  ("tx_zset.go:ZRevRank", "call", "tx.checkTxIsClosed()"),
-  ("tx_zset.go:ZRevRank", "if", "!ok"),
-  ("tx_zset.go:ZRevRank", "return", "tx.db.SortedSetIdx[bucket].FindRevRank(string(key))"),
-  ("tx_zset.go:ZScore", "call", "tx.checkTxIsClosed()"),
-  ("tx_zset.go:ZScore", "if", "!ok"),
-  ("tx_zset.go:ZScore", "if", "node != nil"),
-  ("tx_zset.go:ZScore", "call", "tx.db.SortedSetIdx[bucket].GetByKey(string(key))"),
-  ("tx_zset.go:ZScore", "return", "float64(node.Score())"),
-  ("tx_zset.go:ZGetByKey", "call", "tx.checkTxIsClosed()"),
-  ("tx_zset.go:ZGetByKey", "if", "!ok"),
-  ("tx_zset.go:ZGetByKey", "if", "node != nil"),
-  ("tx_zset.go:ZGetByKey", "call", "tx.db.SortedSetIdx[bucket].GetByKey(string(key))"),
-  ("tx_zset.go:ErrSeparatorForZSetKey", "return", "errors.New(\"contain separator (\" + SeparatorForZSetKey + \") for ZSet key\")")]
+  ("tx_bptree.go:Delete", "return", "tx.put(bucket, key, nil, Persistent, DataDeleteFlag, uint64(time.Now().Unix()), DataStructureBPTree)")
+]
 
-/-- **the transactional API, regenerated** -/
-theorem tx_api_ok : txApiStmts = expectedTxApiStmts := by decide +kernel
+theorem tx_api_core_ok : txApiOfCore = expectedTxApiCore := by decide +kernel
 
 end NutsProofs.Facts
